@@ -97,6 +97,70 @@ def gen_c04(rng, tier):
     return cases
 
 
+def gen_c04_firstmatch(rng, tier):
+    """The first-match rule under stress: two or three sections whose virtual extents overlap (identical,
+    nested either way, partial), the FIRST of them defective in one way (raw data outside the buffer by one
+    byte / entirely / wrapping, no raw data, raw data shorter than the overlap) and a later one sane.  A
+    lookup must answer for the first section containing the rva, whatever the later ones would say."""
+    cases = []
+    shapes = ["same", "b_in_a", "a_in_b", "partial", "three"]
+    defects = ["none", "raw_past_1", "raw_past_all", "raw_wrap", "raw_zero", "raw_short", "vs_zero", "prd_in_headers"]
+    combos = [(b, sh, df) for b in (32, 64) for sh in shapes for df in defects]
+    if tier == "quick":
+        combos = rng.sample(combos, 24)
+    for bits, shape, defect in combos:
+        pe = PE(bits)
+        pe.file_align, pe.section_align = 0x200, 0x1000
+        mk = lambda name, va, vs, prd, rs: Section(name=name, va=va, vs=vs, prd=prd, rs=rs, data=rand_bytes(rng, rs if rs < 0x1000 else 0x200))
+        a = mk(b".a", 0x1000, 0x400, 0x400, 0x400)
+        if shape == "same":
+            others = [mk(b".b", 0x1000, 0x400, 0x800, 0x400)]
+        elif shape == "b_in_a":
+            others = [mk(b".b", 0x1100, 0x100, 0x800, 0x200)]
+        elif shape == "a_in_b":
+            a = mk(b".a", 0x1100, 0x100, 0x400, 0x200)
+            others = [mk(b".b", 0x1000, 0x400, 0x800, 0x400)]
+        elif shape == "partial":
+            others = [mk(b".b", 0x1200, 0x400, 0x800, 0x400)]
+        else:
+            others = [mk(b".b", 0x1000, 0x300, 0x800, 0x400), mk(b".c", 0x1080, 0x600, 0xC00, 0x600)]
+        pe.sections = [a] + others
+        data = pe.build()
+        L = len(data)
+        if defect == "raw_past_1":
+            a.prd, a.rs, a.data = L - a.rs + 1, a.rs, None
+        elif defect == "raw_past_all":
+            a.prd, a.data = L + 0x200, None
+        elif defect == "raw_wrap":
+            a.prd, a.rs, a.data = 0xFFFFFF00, 0x200, None
+        elif defect == "raw_zero":
+            a.rs, a.data = 0, None
+        elif defect == "raw_short":
+            a.rs, a.data = 0x80, a.data[:0x80]
+        elif defect == "vs_zero":
+            a.vs = 0
+        elif defect == "prd_in_headers":
+            a.prd, a.data = 0x10, None
+        pe.file_len = L
+        data = pe.build()
+        lay = pe.layout
+        kf = "f%d" % bits
+        case = [img_line(rng, data), "from_bytes " + kf]
+        rvas, offs = edge_points(pe, lay, len(data))
+        for k in [kf] + (["wf"] if rng.random() < 0.3 else []):
+            for rva in rvas:
+                case.append("r2f %s 0x%x" % (k, rva))
+                case.append("slice %s 0x%x 1 1" % (k, rva))
+                if k == kf:
+                    case.append("read %s 0x%x 1 1" % (k, pe.image_base + rva))
+            for fo in offs:
+                case.append("f2r %s 0x%x" % (k, fo))
+            for i in range(len(pe.sections) + 1):
+                case.append("secbytes %s %d" % (k, i))
+        cases.append(case)
+    return cases
+
+
 def header_variants(rng, tier):
     """images around every structure end and every limit validate_headers knows"""
     out = []
@@ -187,6 +251,18 @@ def gen_c07_corpus(rng, tier):
             case = [img_line(rng, data, al, fl)]
             for k in ("f32", "f64", "v32", "v64", "wf", "wv"):
                 case += ["from_bytes " + k, "hdr " + k, "hdrw " + k]
+            cases.append(case)
+    # overlays / truncations that leave 1..3 non-zero bytes after the last whole dword (the checksum's tail)
+    files = corpus_files()
+    small = [(fn, d) for fn, d in files if len(d) < 4096] or files
+    picks = small if tier != "quick" else rng.sample(small, min(6, len(small)))
+    for fn, data in picks + [x for x in files if len(x[1]) >= 4096][:2]:
+        for t in (1, 2, 3):
+            tail = bytes(rng.choice([0x01, 0x80, 0xFF, rng.randrange(1, 256)]) for _ in range(t))
+            body = data[:len(data) & ~3]
+            case = [img_line(rng, body + tail, rng.choice([0, 4, 8]), "e")]
+            for k in ("f32", "f64", "wf"):
+                case += ["hdr " + k, "hdrw " + k]
             cases.append(case)
     return cases
 
@@ -293,6 +369,16 @@ def gen_c05(rng, tier):
                 se = rng.choice([0, 0, 0, 1, 0xFF])
                 case.append("derva_slice_s %s %s 0x%x %d" % (k, t, r, se)); case.append("deref_slice_s %s %s 0x%x %d" % (k, t, va, se))
                 case.append("derva_cstr %s 0x%x" % (k, r)); case.append("deref_cstr %s 0x%x" % (k, va))
+                # element types whose size exceeds their alignment (data directory 8/4, section header 40/4, [u8;16] 16/1)
+                st = rng.choice(["dd", "sh", "b16"])
+                case.append("derva %s %s 0x%x" % (k, st, r)); case.append("deref %s %s 0x%x" % (k, st, va))
+                ln = rng.choice([0, 1, 2, 3, 7, 12, 13, 31, 32, 33, 100, 289, 1 << 28, 1 << 60])
+                case.append("derva_slice %s %s 0x%x %d" % (k, st, r, ln)); case.append("deref_slice %s %s 0x%x %d" % (k, st, va, ln))
+                if pe.bits == 64:
+                    # virtual addresses that differ from an in-image one by a multiple of 2^32
+                    for hi in (1, 2, 0x7FFF):
+                        far = (va + (hi << 32)) & M
+                        case.append("v2r %s 0x%x" % (k, far)); case.append("read %s 0x%x 1 1" % (k, far)); case.append("deref_copy %s u8 0x%x" % (k, far))
                 if rng.random() < 0.15:
                     case.append("derva %s %s 0x%x" % (kw, t, r)); case.append("derva_cstr %s 0x%x" % (kw, r))
                     case.append("derva_slice_s %s %s 0x%x 0" % (kw, t, r)); case.append("derva_copy %s %s 0x%x" % (kw, t, r))
@@ -311,6 +397,12 @@ def gen_c06(rng, tier):
     for n in range(nimg):
         pe = simple_pe(rng, nsec=rng.choice([1, 2, 3, 4, 6]))
         plant(rng, pe)
+        flush = []
+        for s_ in pe.sections:
+            if s_.data is not None and s_.rs >= 16 and len(s_.data) == s_.rs and rng.random() < 0.6:
+                w_ = rng.choice([1, 2, 4, 8])
+                s_.data = s_.data[:s_.rs - 2 * w_] + b"\xA5" * w_ + bytes(w_)    # one element, then the terminator in the last slot
+                flush.append((s_, w_))
         data = pe.build()
         if rng.random() < 0.3:
             adversarial_sections(rng, pe, len(data))
@@ -328,6 +420,15 @@ def gen_c06(rng, tier):
         for r in rvas:
             q.append(("derva_copy %s u32 0x%x", r)); q.append(("derva_cstr %s 0x%x", r)); q.append(("derva_into %s 8 0x%x", r))
             q.append(("derva_slice_s %s u16 0x%x 0", r)); q.append(("slice %s 0x%x 1 1", r))
+            # the VA twins (same bytes through ImageBase + rva): sentinel arrays that end exactly where the
+            # stored bytes end must read the same on the file and on the converted view
+            va = pe.image_base + r
+            q.append(("deref_copy %s u32 0x%x", va)); q.append(("deref_cstr %s 0x%x", va))
+            q.append(("deref_slice_s %%s %s 0x%%x 0" % rng.choice(["u8", "u16", "u32", "u64"]), va))
+        # sentinel-terminated arrays planted flush against the end of each section's stored bytes
+        for s_, w_ in flush:
+            q.append(("deref_slice_s %%s u%d 0x%%x 0" % (8 * w_), pe.image_base + s_.va + s_.rs - 2 * w_))
+            q.append(("derva_slice_s %%s u%d 0x%%x 0" % (8 * w_), s_.va + s_.rs - 2 * w_))
         case = [img_line(rng, data), "from_bytes " + kf, "to_view " + kf]
         case += [fmt % (kf, r) for fmt, r in q]
         case += ["img_to_view " + kf, "from_bytes " + kv]
